@@ -1,6 +1,9 @@
 import Proofs.C17
 #print axioms TW.C17.inv_correct
 #print axioms TW.C17.inv_singular
+#print axioms TW.C17.inv_total
+#print axioms TW.C17.inv_total_correct
+#print axioms TW.C17.inv_singular_exit
 #print axioms TW.C17.inv_unique
 #print axioms TW.C17.nonsquare_error
 #print axioms TW.C17.too_few_points_general
